@@ -11,6 +11,15 @@ CHECKS = {
  "C02": dict(tech="model-based property testing: canonicity map keyed by oracle truth table + unique table driven against a set model with colliding hashes + default-capacity growth run",
    text="Generated search in three layers: builder histories with 1..64-slot unique tables (pointer identity keyed by truth table, shape walk, re-request of every node after growth), the table itself against a key->address model under colliding hashes and repeated growth, and default-capacity builders pushed past the 131072-slot growth thresholds. Falsification only.",
    note="Trusted: oracle truth tables, walker, hook capacity override (feature verif-hooks) which only changes the initial table size.", ref="5/C02"),
+ "C06": dict(tech="property-based differential testing: top-down compiler (both node stores) vs. brute-force CNF truth table, plus metamorphic conditioning of results and their negations",
+   text="Generated search: random CNFs (edge cases, repeated gadgets, contradiction cores that unit propagation alone does not refute) x random decision orders x both node stores; false constant iff unsatisfiable, walked truth table equals the CNF's, no path repeats a variable, conditioning of the result and of its negation equals the cofactor for every (variable, value). Falsification only; n <= 7.",
+   note="Trusted: harness CNF evaluator/truth tables, BddPtr walker. Semantic store checked over the 64-bit prime only.", ref="5/C06"),
+ "C08": dict(tech="property-based testing against brute-force weighted sums with exact integer / finite-field weights and a path-shape walker",
+   text="Generated search: BDDs from random histories under random orders (level-skipping at top/middle/bottom measured), every admissible n_s, arbitrary non-normalised integer weights and boundary residues: same truth table, every path tests exactly the order prefix, counts equal brute force exactly. Falsification only; n <= 8.",
+   note="Trusted: truth-table oracle, path walker, harness mulmod. Inputs respect smooth()'s documented precondition.", ref="5/C08"),
+ "C09": dict(tech="model-based stateful property testing of the SAT solver: decide/pop histories vs. brute-force entailment, recorded-state model and fresh-solver differential",
+   text="Generated search: random CNFs x decide/pop histories; after every step soundness (entailment by brute force), conflict soundness, fixpoint (no falsified clause, no clause with exactly one unassigned literal), satisfied flag, exact undo of model/hash/flag/difference, hash=>residual, and agreement with a fresh solver replaying the surviving decisions. Falsification only; n <= 6, <= 40 steps.",
+   note="Trusted: harness clause semantics and truth tables; model reconstructed from difference_iter. Hash clause asserted only below the 2^128 prime-product bound.", ref="5/C09"),
 }
 
 NOT_YET = {
